@@ -141,6 +141,57 @@ pub fn run(seed: u64, tier: &str, filter: &str, count: Option<u64>, out: &mut dy
     }
 }
 
+/// `pairs` scenario: the same instruction twice IN A ROW on one InstructionSet, on two states that differ in exactly
+/// one operand (an integer, a float, a boolean near the top of its stack). Both executions are reported: a result
+/// remembered from the first one under a key that ignores the changed operand shows in the second.
+pub fn run_pairs(seed: u64, tier: &str, filter: &str, count: Option<u64>, out: &mut dyn FnMut(String)) {
+    let names = instruction_names();
+    let n = count.unwrap_or(if tier == "thorough" { 200 } else { 20 });
+    for name in names.iter().filter(|n| matches(n, filter)) {
+        if crate::scen_prog::is_rand(name) || name == "EXEC.CMD" {
+            continue;
+        }
+        for case in 0..n {
+            let mut r = Rng::for_case(seed, &format!("pairs:{}", name), case);
+            let mut st = gen_state(&mut r, &GenOpts { instrs: &names, rich: true, item_depth: 2 });
+            if is_size_operand(name) {
+                cap_ints(&mut st, 300);
+            }
+            // a fresh InstructionSet per pair: whatever it remembers comes from the first execution
+            let mut iset = make_iset(false);
+            let pre = enc_state(&st);
+            let mut b = match parse_line(&pre).and_then(|v| dec_state(&v[0])) {
+                Some(s) => s,
+                None => continue,
+            };
+            match r.below(3) {
+                0 if b.float_stack.size() > 0 => {
+                    let pos = r.below(b.float_stack.size().min(4) as u64) as usize;
+                    if let Some(x) = b.float_stack.get_mut(pos) {
+                        *x = if x.is_finite() { *x + *r.pick(&[0.25f32, 0.5, 1.0, 1.5707964, -0.75]) } else { 1.0 };
+                    }
+                }
+                1 if b.bool_stack.size() > 0 => {
+                    if let Some(x) = b.bool_stack.get_mut(0) {
+                        *x = !*x;
+                    }
+                }
+                _ => {
+                    let ni = b.int_stack.size();
+                    if ni > 0 {
+                        let pos = r.below(ni.min(4) as u64) as usize;
+                        if let Some(x) = b.int_stack.get_mut(pos) {
+                            *x = x.wrapping_add(*r.pick(&[1i32, -1, 2, 3])).min(300);
+                        }
+                    }
+                }
+            }
+            out(observe_exec(&mut iset, name, st));
+            out(observe_exec(&mut iset, name, b));
+        }
+    }
+}
+
 pub fn replay_exec(xs: &[Sx]) -> Option<String> {
     let name = match xs.get(0)? {
         Sx::Atom(a) => a.clone(),
